@@ -255,13 +255,14 @@ func calcCueItvls(segStart, segDur, utcStart, cueDur int) []cueItvl {
 	utcEndMS := utcStart + segDur
 
 	cueFullS := int(math.Ceil(float64(cueDur) * 0.001))
+	if cueFullS < 1 {
+		cueFullS = 1
+	}
 	cueFullMS := cueFullS * 1000
 
-	for utcS := utcStart / cueFullMS; utcS <= (utcStart+segDur)/cueFullMS; utcS += cueFullS {
+	// Cues start at UTC seconds that are multiples of cueFullS
+	for utcS := utcStart / cueFullMS * cueFullS; utcS*1000 < utcEndMS; utcS += cueFullS {
 		cueStartMS := utcS * 1000
-		if cueStartMS == utcEndMS {
-			break
-		}
 		ci := cueItvl{
 			utcS:    utcS,
 			startMS: cueStartMS,
@@ -272,6 +273,9 @@ func calcCueItvls(segStart, segDur, utcStart, cueDur int) []cueItvl {
 		}
 		if utcEndMS < ci.endMS {
 			ci.endMS = utcEndMS
+		}
+		if ci.endMS <= ci.startMS {
+			continue // The cue ended before the segment starts
 		}
 		ci.startMS += diff
 		ci.endMS += diff
